@@ -177,6 +177,11 @@ impl FreezerFiles {
             let next_id = head_id + 1;
             let new_head_file = self.open_truncated(next_id)?;
 
+            // the old head is complete: make it durable before it is left behind. `sync_all` only
+            // covers the current head, and the blocks in this file are removed from the database
+            // as soon as the freeze pass that wrote them returns.
+            self.head.file.sync_all()?;
+
             // release old head, reopen with read only
             self.release(head_id);
             self.open_read_only(head_id)?;
